@@ -124,7 +124,7 @@ theorem fifo_offer (hok : FifoOk depth lat ft) (s : FifoS α) (c : Ctl) (x : Fwd
 theorem fifo_move (hok : FifoOk depth lat ft) (s : FifoS α) (c : Ctl) (x : Fwd α) (r : Bool) (h : FifoInv depth lat s) :
     beatIf (((fifo d0 depth lat ft).fwd s c x).valid && r) ((fifo d0 depth lat ft).fwd s c x).data
         ++ ((fifo d0 depth lat ft).next s c x r).q
-      = s.q ++ beatIf (x.valid && (fifo d0 depth lat ft).bwd s c r) x.data := by
+      = s.q ++ beatIf (x.valid && (fifo d0 depth lat ft).bwd s c x r) x.data := by
   simp only [fifo]
   by_cases hb : (ft && s.emptyR) = true
   · have hb' := hb
